@@ -16,12 +16,31 @@ const SCALARS: [(&str, u8); 10] = [
     ("A", 9), ("B%", 0), ("C!", 1), ("D#", 2), ("E$", 3), ("AB", 9), ("F1", 9), ("FA", 9), ("A1%", 0), ("BA$", 3),
 ];
 /// (name, dims, type code)
-const ARRAYS: [(&str, usize, u8); 6] = [("G", 1, 9), ("H%", 1, 0), ("K$", 1, 3), ("M", 2, 9), ("A", 1, 9), ("GA#", 2, 2)];
+const ARRAYS: [(&str, usize, u8); 7] = [("G", 1, 9), ("H%", 1, 0), ("K$", 1, 3), ("M", 2, 9), ("A", 1, 9), ("GA#", 2, 2), ("T", 3, 9)];
 
 #[derive(Clone, PartialEq, Debug)]
 enum MV {
-    N(i64),
+    /// numbers: small dyadic values, exact in every numeric type that can hold them
+    N(f64),
     S(String),
+}
+
+/// rhs text and value: whole numbers, quarters and negative values; `floor` for Integer targets
+fn num_rhs(rng: &mut Rng, seq: i64, integer_target: bool) -> (String, f64) {
+    let whole = seq % 200;
+    let (text, v): (String, f64) = match rng.usize(6) {
+        0 => (format!("{}.25", whole), whole as f64 + 0.25),
+        1 => (format!("{}.5", whole), whole as f64 + 0.5),
+        2 => (format!("-{}.75", whole), -(whole as f64) - 0.75),
+        3 => (format!("-{}", whole + 1), -(whole as f64) - 1.0),
+        _ => (whole.to_string(), whole as f64),
+    };
+    (text, if integer_target { v.floor() } else { v })
+}
+
+fn show_num(x: f64) -> String {
+    let t = if x.fract() == 0.0 { format!("{}", x.abs() as i64) } else { format!("{}", x.abs() as f32) };
+    format!("{}{} ", if x < 0.0 { "-" } else { " " }, t)
 }
 
 struct Model {
@@ -114,13 +133,13 @@ impl Prop for C06 {
                         }
                         format!("{}=\"{}\"", name, v)
                     } else {
-                        let v = next_val % 200;
+                        let (t, v) = num_rhs(rng, next_val, ty == 0);
                         if ty == 3 {
                             expect_err = Some("TYPE MISMATCH");
                         } else {
                             m.vals.insert(name.to_string(), MV::N(v));
                         }
-                        format!("{}={}", name, v)
+                        format!("{}={}", name, t)
                     }
                 }
                 3..=5 => {
@@ -131,17 +150,24 @@ impl Prop for C06 {
                     let subs: Vec<i64> = (0..nd)
                         .map(|d| {
                             let b = bounds.as_ref().map(|b| b[d]).unwrap_or(10);
-                            let x = *rng.pick(&[-1, 0, 0, 1, 1, b - 1, b, b, b + 1, 10, 11, 2, 3]);
+                            let x = *rng.pick(&[-1, 0, 0, 1, 1, b - 1, b, b, b + 1, 10, 11, 2, 3, 12, 23, 32767]);
                             // a negative subscript on first use: whether the array then exists is open
                             if bounds.is_none() && x < 0 { 0 } else { x }
                         })
                         .collect();
                     let key = format!("{}({})", name, subs.iter().map(|x| x.to_string()).collect::<Vec<_>>().join(","));
+                    // the subscript as typed: sometimes with a fraction (floored), never changing the element meant
+                    let typed_subs: Vec<String> = subs
+                        .iter()
+                        .map(|x| if *x >= 0 && rng.chance(1, 5) { format!("{}.{}", x, rng.pick(&["5", "25", "9"])) } else { x.to_string() })
+                        .collect();
+                    let typed_key = format!("{}({})", name, typed_subs.join(","));
                     let b = bounds.clone().unwrap_or_else(|| vec![10; nd]);
                     let in_range = subs.iter().zip(b.iter()).all(|(x, bb)| *x >= 0 && x <= bb);
                     next_val += 1;
                     let v = next_val % 200;
-                    let rhs = if ty == 3 { format!("\"s{}\"", v) } else { v.to_string() };
+                    let (nt, nv) = num_rhs(rng, next_val, ty == 0);
+                    let rhs = if ty == 3 { format!("\"s{}\"", v) } else { nt };
                     if subs.iter().any(|x| *x < 0) {
                         // negative subscript: an error, and whether the array got auto-dimensioned is open
                         any_err_ok = true;
@@ -158,9 +184,9 @@ impl Prop for C06 {
                         if bounds.is_none() {
                             m.dims.insert(name.to_string(), vec![10; nd]);
                         }
-                        m.vals.insert(key.clone(), if ty == 3 { MV::S(format!("s{}", v)) } else { MV::N(v) });
+                        m.vals.insert(key.clone(), if ty == 3 { MV::S(format!("s{}", v)) } else { MV::N(nv) });
                     }
-                    format!("{}={}", key, rhs)
+                    format!("{}={}", typed_key, rhs)
                 }
                 6 => {
                     saw_array = true;
@@ -219,7 +245,7 @@ impl Prop for C06 {
                     let (n2, c2) = SCALARS[rng.usize(SCALARS.len())];
                     if m.unknown && (c1 == 9 || c2 == 9) {
                         // values of unsuffixed names are unknown to the model right now
-                        format!("{}={}", "B%", { m.vals.insert("B%".into(), MV::N(5)); 5 })
+                        format!("{}={}", "B%", { m.vals.insert("B%".into(), MV::N(5.0)); 5 })
                     } else {
                         let (t1, t2) = (m.ty(n1, c1), m.ty(n2, c2));
                         if t1 == t2 {
@@ -331,7 +357,7 @@ impl Prop for C06 {
                 let mut want = String::new();
                 for (r, ty) in &refs {
                     match m.vals.get(r) {
-                        Some(MV::N(x)) => want.push_str(&format!("[{}{} ]", if *x < 0 { "-" } else { " " }, x.abs())),
+                        Some(MV::N(x)) => want.push_str(&format!("[{}]", show_num(*x))),
                         Some(MV::S(t)) => want.push_str(&format!("[{}]", t)),
                         None => want.push_str(if *ty == 3 { "[]" } else { "[ 0 ]" }),
                     }
